@@ -800,7 +800,7 @@ impl HuffmanDecoder {
             None => return Err(ZiporaError::invalid_data("Empty Huffman tree")),
         };
 
-        let mut result = Vec::with_capacity(output_length);
+        let mut result = Vec::with_capacity(output_length.min(encoded_data.len().saturating_mul(8).saturating_add(1))); // a bit yields at most one symbol: do not trust output_length for the reservation
         let mut current_node = root;
 
         for &byte in encoded_data {
@@ -1561,7 +1561,12 @@ impl ContextualHuffmanEncoder {
         }
 
         // Create output buffer with correct size
-        let mut output = vec![0u8; output_size];
+        // output_size is caller / header supplied: an allocation failure is an error, not an abort
+        let mut output: Vec<u8> = Vec::new();
+        output
+            .try_reserve_exact(output_size)
+            .map_err(|_| ZiporaError::out_of_memory(output_size))?;
+        output.resize(output_size, 0);
 
         // Track context and position for each stream
         let mut contexts = [256u16; 8]; // 256 = initial context
@@ -1880,7 +1885,7 @@ impl ContextualHuffmanDecoder {
             return Ok(Vec::new());
         }
 
-        let mut result = Vec::with_capacity(output_length);
+        let mut result = Vec::with_capacity(output_length.min(encoded_data.len().saturating_mul(8).saturating_add(1))); // a bit yields at most one symbol: do not trust output_length for the reservation
 
         match self.encoder.order {
             HuffmanOrder::Order0 => {
@@ -1909,7 +1914,7 @@ impl ContextualHuffmanDecoder {
     /// Decode Order-0 (classic Huffman)
     fn decode_order0(&self, encoded_data: &[u8], tree: &HuffmanTree, output_length: usize) -> Result<Vec<u8>> {
         let root = tree.root().ok_or_else(|| ZiporaError::invalid_data("Empty tree"))?;
-        let mut result = Vec::with_capacity(output_length);
+        let mut result = Vec::with_capacity(output_length.min(encoded_data.len().saturating_mul(8).saturating_add(1))); // a bit yields at most one symbol: do not trust output_length for the reservation
         let mut current_node = root;
 
         for &byte in encoded_data {
@@ -1959,7 +1964,7 @@ impl ContextualHuffmanDecoder {
             return Ok(Vec::new());
         }
 
-        let mut result = Vec::with_capacity(output_length);
+        let mut result = Vec::with_capacity(output_length.min(encoded_data.len().saturating_mul(8).saturating_add(1))); // a bit yields at most one symbol: do not trust output_length for the reservation
         let mut byte_idx = 0;
         let mut bit_pos = 0;
 
@@ -1992,7 +1997,7 @@ impl ContextualHuffmanDecoder {
             return Ok(Vec::new());
         }
 
-        let mut result = Vec::with_capacity(output_length);
+        let mut result = Vec::with_capacity(output_length.min(encoded_data.len().saturating_mul(8).saturating_add(1))); // a bit yields at most one symbol: do not trust output_length for the reservation
         let mut byte_idx = 0;
         let mut bit_pos = 0;
 
